@@ -203,13 +203,19 @@ def inventory(chk, prog):
         site = "%s" % fn["pretty"]
         is_unsafe_fn = bool(fn.get("unsafe"))
         sname = (fn.get("impl_self") or {}).get("name")
+        fname = fn["name"]
+        if "{closure" in fn.get("did", ""):
+            # a closure is analysed as part of the function that contains it (the typestate simulation inlines it)
+            parent = prog.fns.get(fn["did"].split("::{closure")[0])
+            if parent is not None:
+                sname, fname = (parent.get("impl_self") or {}).get("name"), parent["name"]
         cls = None
         if is_unsafe_fn:
             cls = "inside-unsafe-fn (caller's obligation)"
         elif kind == "unsafe-call":
             callee = d["callee"]
             short = callee.split("::")[-1]
-            if short in ("assume_init", "read") and (sname, fn["name"]) in TYPESTATE_FNS:
+            if short in ("assume_init", "read") and (sname, fname) in TYPESTATE_FNS:
                 cls = "typestate (discharged by rule T)"
             elif short in ("borrow", "borrow_mut") and "ReferenceUnsafe" in callee and sname == "Reference":
                 # receiver must be the private field of Reference
@@ -383,6 +389,16 @@ def signature_rule(chk, prog):
         n += 1
         raw_params = [i for i, t in enumerate(f["sig_inputs"]) if has_raw_or_refunsafe(t)]
         chk.evaluated(1, nontrivial=("sig", f["pretty"]))
+        if raw_params and not f.get("unsafe") and not f.get("exported", True):
+            # a private helper (e.g. `const fn wrap(inner)`) is not reachable from outside the crate: what matters is that every caller is
+            # itself an unsafe fn or has no raw-pointer-carrying parameter of its own (then the pointer originates inside the crate and the
+            # unsafe-operation inventory judges it)
+            idx = W.callers_index(prog)
+            callers = [prog.fns.get(c) for c in idx.get(f["did"], ())]
+            bad_callers = [c for c in callers if c is not None and not c.get("unsafe") and any(has_raw_or_refunsafe(t) for t in c.get("sig_inputs", []))
+                           and not (c.get("name") in ("clone", "from", "into_inner", "borrow", "borrow_mut") and is_adt(c.get("impl_self") or {}, "Reference"))]
+            if not bad_callers:
+                continue
         if raw_params and not f.get("unsafe"):
             chk.violation("C16.S", "safe-raw-constructor:" + f["pretty"], "safe fn %s (%s) builds a Reference from a raw-pointer-carrying parameter (%s); it must be `unsafe fn`"
                           % (f["pretty"], loc(f["span"]), f["sig"]), fn=f["pretty"], file=loc(f["span"]))
